@@ -387,6 +387,7 @@ func (w *World) deepCalls(fn *ssa.Function, max int, visit func(c *ssa.Call)) {
 // checkReservedVariable: the job-identity variable of a stage is the job's own id and cannot be
 // overwritten by a job-supplied variable (shared by C18 and C19: output is attributed through it).
 func checkReservedVariable(w *World, r *Report, ro *Roles) {
+	checkStageVariablesWin(w, r)
 	gb := ro.GraphBuild
 	if gb == nil {
 		r.Undecided("reserved", "graph builder", "-", "not resolved")
@@ -543,5 +544,51 @@ func checkReservedVariable(w *World, r *Report, ro *Roles) {
 			}
 		})
 		r.Check(inLoop, "per-job.stage-variables", vname+": one variable container per stage", w.Pos(vfn.Pos()), "the container is created inside the stage loop", "stages share one variable container")
+	}
+}
+
+// checkStageVariablesWin: the task runner keys the log writers by the job-identity variable of the *task's* variables, which the
+// scheduler builds from the stage's variables (where the runner package put the job's own id, behind the reserved-name test)
+// and the task's env (taken from the pipeline definition, not tested for the reserved name). In upstream Container.Merge the
+// argument wins; so wherever a stage's variables are merged into what becomes Task.Variables they must be the argument.
+func checkStageVariablesWin(w *World, r *Report) {
+	n := 0
+	for _, fn := range w.ModFuncs {
+		if fn.Pkg == nil || fn.Pkg != w.Pkg("taskctl") {
+			continue
+		}
+		allInstrs(fn, func(in ssa.Instruction) {
+			st, ok := in.(*ssa.Store)
+			if !ok {
+				return
+			}
+			fa, ok := st.Addr.(*ssa.FieldAddr)
+			if !ok || fieldNameOf(fa) != "Variables" || !strings.HasSuffix(shapeString(fa.X.Type()), "task.Task") {
+				return
+			}
+			c, ok := w.Resolve(st.Val).(*ssa.Call)
+			if !ok || !c.Call.IsInvoke() || c.Call.Method.Name() != "Merge" || len(c.Call.Args) != 1 {
+				return
+			}
+			isStageVars := func(v ssa.Value) bool {
+				u, ok := w.Resolve(v).(*ssa.UnOp)
+				if !ok {
+					return false
+				}
+				fa, ok := u.X.(*ssa.FieldAddr)
+				return ok && fieldNameOf(fa) == "Variables" && strings.HasSuffix(shapeString(fa.X.Type()), "Stage")
+			}
+			recvStage, argStage := isStageVars(c.Call.Value), isStageVars(c.Call.Args[0])
+			if !recvStage && !argStage {
+				return
+			}
+			n++
+			r.Check(argStage && !recvStage, "reserved.stage-variables-win", FuncName(fn)+": stage variables merged into the task's variables", w.InstrPos(in),
+				"the stage's variables are the argument of Merge (the argument wins): a task env entry cannot replace the job-identity variable",
+				"the stage's variables are the receiver of Merge, the other container wins: an env entry of the task definition named like the job-identity variable replaces it, the task's log files are opened under another job's id")
+		})
+	}
+	if n == 0 {
+		r.Undecided("reserved.stage-variables-win", "taskctl: stage variables → task variables", "-", "no Merge of a stage's variables into Task.Variables found")
 	}
 }
